@@ -3,6 +3,7 @@ package rules
 import (
 	"fmt"
 	"go/types"
+	"sort"
 	"strings"
 
 	"elyslint/core"
@@ -85,6 +86,8 @@ func ammBookCalls(book string) []CallLedger {
 }
 
 func checkC01(P *core.Program, R *core.Report) {
+	defer checkBookWriters(P, R)
+	defer checkSettlePositive(P, R)
 	R.Explanation = "Two linear invariants over every consensus-reachable function. (I1) bank balance at an AMM pool address − pool book = 0: every bank transfer whose end is an AMM pool address (provenance Pool.GetAddress()/Pool.Address through bech32 conversion) and every book update " +
 		"(Pool.IncreaseLiquidity/DecreaseLiquidity, the …AndUpdateLiquidity keeper helpers, Pool.JoinPool / Pool.ExitPool results) on the same success paths must cancel symbolically; the helpers ApplyJoinPoolStateChange/ApplyExitPoolStateChange are accounted at their call sites and their declared effect (transfer of exactly the coins parameter to/from the pool address) is verified against their bodies. " +
 		"(I2) pool book − chain-wide DenomLiquidity = 0 with RecordTotalLiquidityIncrease/Decrease. Also: the share arguments of the perpetual back door helpers are the zero constant; CreatePool's book, transfer and DenomLiquidity loop all derive from msg.PoolAssets of the same message; MatchAmmBalances is reachable only from upgrade code. " +
@@ -309,6 +312,7 @@ func checkC02(P *core.Program, R *core.Report) {
 		"InitializePool mints pool.GetTotalShares().Amount after setting it. Σ over accounts is not decided (C12's ledger)."
 	subjects := P.Reach(P.FindRoots().Consensus())
 	checkJoinPoolBody(P, R)
+	checkExitPoolBody(P, R)
 	mintBurn := func(P *core.Program, ff *core.FuncFacts, c ssa.CallInstruction, module, coins ssa.Value) string {
 		if isShareDenomCoins(ff, c, coins) != "" {
 			return "Supply"
@@ -575,5 +579,229 @@ func checkJoinPoolBody(P *core.Program, R *core.Report) {
 	}
 	if n == 0 {
 		R.Add("C02-joinpool-body", key, "success returns", P.Pos(fn.Pos()), false, "no success return (anchor changed)")
+	}
+}
+
+// checkBookWriters (C01-book-writers): who may write a pool's reserves in place.  A
+// types.Pool is passed around by value, but its PoolAssets slice shares one backing array
+// between all the copies: an element store through ANY copy changes the live record of
+// whoever loaded it (and of the per-block snapshot).  The book may therefore be written in
+// place only by the pool's own balance methods, which every ledger rule above accounts for;
+// everything else must build a fresh slice.  Decided for all non-generated code of x/:
+// every store whose address runs through an element of a []PoolAsset that was not created
+// in the same function (make / literal / append result) lies in a frozen writer.
+func checkBookWriters(P *core.Program, R *core.Report) {
+	const rule = "C01-book-writers"
+	writers := map[string]string{
+		"x/amm/types.Pool.addToPoolAssetBalances":        "reserve += coin (declared effect of IncreaseLiquidity / the swap update)",
+		"x/amm/types.Pool.subtractFromPoolAssetBalances": "reserve −= coin, negative result rejected",
+		"x/amm/types.Pool.UpdatePoolAssetBalance":        "reserve := coin under 0 < coin (set-to idiom, C05-set-to)",
+	}
+	found := map[string]bool{}
+	n := 0
+	isPoolAssetSlice := func(t types.Type) bool {
+		sl, ok := t.Underlying().(*types.Slice)
+		return ok && strings.HasSuffix(sl.Elem().String(), "x/amm/types.PoolAsset")
+	}
+	var fns []*ssa.Function
+	for _, fn := range P.Funcs {
+		if fn.Blocks == nil || core.IsGeneratedOrAux(P.File(fn.Pos())) || strings.HasSuffix(P.File(fn.Pos()), "_test.go") || !strings.HasPrefix(P.Key(fn), "x/") {
+			continue
+		}
+		fns = append(fns, fn)
+	}
+	sort.Slice(fns, func(i, j int) bool { return P.Key(fns[i]) < P.Key(fns[j]) })
+	for _, fn := range fns {
+		key := P.Key(fn)
+		ff := P.Facts(fn)
+		for _, b := range fn.Blocks {
+			for _, in := range b.Instrs {
+				st, ok := in.(*ssa.Store)
+				if !ok {
+					continue
+				}
+				// walk the address down to an element of a []PoolAsset
+				addr := st.Addr
+				var ia *ssa.IndexAddr
+				for d := 0; d < 5 && addr != nil; d++ {
+					switch x := addr.(type) {
+					case *ssa.FieldAddr:
+						addr = x.X
+						continue
+					case *ssa.IndexAddr:
+						if isPoolAssetSlice(x.X.Type()) {
+							ia = x
+						}
+					}
+					break
+				}
+				if ia == nil {
+					continue
+				}
+				// a slice created here is private to this function
+				fresh := false
+				switch s := ff.Fwd(ia.X).(type) {
+				case *ssa.MakeSlice:
+					fresh = true
+				case *ssa.Slice:
+					if _, isAlloc := s.X.(*ssa.Alloc); isAlloc {
+						fresh = true // slice literal
+					}
+				case *ssa.Call:
+					if core.CalleeName(s.Common()) == "append" {
+						fresh = true
+					}
+				}
+				if fresh {
+					continue
+				}
+				n++
+				_, ok = writers[key]
+				found[key] = true
+				R.Add(rule, key, "in-place store into a PoolAssets element", P.Pos(P.InstrPos(st)), ok,
+					"the PoolAssets backing array is shared by every by-value copy of the pool (the live record, the block snapshot); only the pool's own balance methods may write it in place")
+			}
+		}
+	}
+	for w := range writers {
+		if !found[w] {
+			R.Add(rule, w, "frozen writer", "-", false, "the balance method no longer writes the book in place (anchor changed)")
+		}
+	}
+	_ = n
+}
+
+// checkSettlePositive (C01-settle-positive): UpdatePoolForSwap writes the book in place
+// (shared backing array, see C01-book-writers) BEFORE it moves the coins.  If the computed
+// side of the swap is zero the bank send of a zero coin fails after the book was written;
+// a caller that merely discards the failed cache context (the fee conversion in
+// OnCollectFee) then still persists the touched array with its own SetPool and the book
+// exceeds the bank balance.  Every call site must carry the must-hold fact 0 < amount for
+// the coin that was computed by the pricing function.
+func checkSettlePositive(P *core.Program, R *core.Report) {
+	const rule = "C01-settle-positive"
+	target := P.Fn("x/amm/keeper.Keeper.UpdatePoolForSwap")
+	if target == nil {
+		R.Add(rule, "x/amm/keeper.Keeper.UpdatePoolForSwap", "function", "-", false, "unresolved anchor")
+		return
+	}
+	n := 0
+	for _, e := range P.CG().In[target] {
+		fn := e.Caller
+		if core.IsGeneratedOrAux(P.File(fn.Pos())) {
+			continue
+		}
+		c, ok := e.Site.(ssa.CallInstruction)
+		if !ok || len(c.Common().Args) < 7 {
+			continue
+		}
+		ff := P.Facts(fn)
+		in := c.(ssa.Instruction)
+		n++
+		okPos := false
+		what := ""
+		for _, ai := range []int{5, 6} { // tokenIn, tokenOut
+			arg := c.Common().Args[ai]
+			computed := false
+			for _, o := range ff.Origins(arg) {
+				if o.Kind == "call" && (strings.HasSuffix(o.Name, "SwapOutAmtGivenIn") || strings.HasSuffix(o.Name, "SwapInAmtGivenOut")) {
+					computed = true
+				}
+			}
+			if !computed {
+				continue
+			}
+			what = "argument " + fmt.Sprint(ai)
+			for _, a := range ff.At(in) {
+				if a.Rel != core.LT || a.A != core.ZeroMarker || a.B == nil {
+					continue
+				}
+				for _, o := range ff.Origins(a.B) {
+					if o.Kind == "call" && (strings.HasSuffix(o.Name, "SwapOutAmtGivenIn") || strings.HasSuffix(o.Name, "SwapInAmtGivenOut")) {
+						okPos = true
+					}
+				}
+			}
+		}
+		R.Add(rule, P.Key(fn), "computed amount positive before UpdatePoolForSwap", P.Pos(P.InstrPos(in)), okPos && what != "",
+			"the settlement is reached only with a strictly positive computed amount (a zero coin fails in the bank after the shared book array was written)")
+	}
+	if n < 3 {
+		R.Add(rule, "x/amm/keeper.Keeper.UpdatePoolForSwap", "call sites", "-", false, fmt.Sprintf("expected the three settlement call sites, found %d (anchor changed)", n))
+	}
+}
+
+// checkExitPoolBody (C02-exitpool-body): the lemma the ledger uses for the types-level exit
+// — Pool.ExitPool lowers TotalShares by exactly exitingShares on EVERY success path —
+// checked against the bodies: processExitPool stores TotalShares := TotalShares −
+// exitingShares (polynomial normal form) and no success exit is reachable without that
+// store; Pool.ExitPool has no success exit that avoids processExitPool.  (The keeper burns
+// and un-commits the shares unconditionally; a fast path that returns early leaves the
+// pool believing in shares that no longer exist.)
+func checkExitPoolBody(P *core.Program, R *core.Report) {
+	const rule = "C02-exitpool-body"
+	fn := P.Fn("x/amm/types.Pool.processExitPool")
+	if fn == nil {
+		R.Add(rule, "x/amm/types.Pool.processExitPool", "function", "-", false, "unresolved anchor")
+		return
+	}
+	ff := P.Facts(fn)
+	var stores []ssa.Instruction
+	for _, b := range fn.Blocks {
+		for _, in := range b.Instrs {
+			st, ok := in.(*ssa.Store)
+			if !ok {
+				continue
+			}
+			fa, ok := st.Addr.(*ssa.FieldAddr)
+			if !ok || core.FieldName(fa.X.Type(), fa.Field) != "TotalShares" {
+				continue
+			}
+			p, okR := ff.PolyOf(st.Val).Rename(func(_ string, v ssa.Value) (string, bool) {
+				if v == nil {
+					return "", false
+				}
+				if len(fn.Params) > 3 && ff.Fwd(v) == ssa.Value(fn.Params[3]) {
+					return "EXIT", true
+				}
+				if originsAll(ff, v, func(o core.Origin) bool {
+					return strings.HasSuffix(o.Path, ".TotalShares") || strings.HasSuffix(o.Path, ".TotalShares.Amount")
+				}) {
+					return "TOTAL", true
+				}
+				return "", false
+			})
+			if okR && p.Equal(core.ParsePoly("TOTAL - EXIT")) {
+				stores = append(stores, in)
+			}
+		}
+	}
+	if len(stores) == 0 {
+		R.Add(rule, P.Key(fn), "TotalShares −= exitingShares", P.Pos(fn.Pos()), false, "no store of TotalShares − exitingShares found")
+	} else {
+		esc, escapes := ff.SuccessExitReachableWithout(nil, func(in ssa.Instruction) bool {
+			for _, s := range stores {
+				if in == s {
+					return true
+				}
+			}
+			return false
+		})
+		pos := P.Pos(fn.Pos())
+		if escapes && esc != nil {
+			pos = P.Pos(P.InstrPos(esc))
+		}
+		R.Add(rule, P.Key(fn), "TotalShares −= exitingShares on every success path", pos, !escapes,
+			"a success return that skips the share bookkeeping leaves TotalShares above the supply after the keeper burns the shares")
+	}
+	if ex := P.Fn("x/amm/types.Pool.ExitPool"); ex != nil {
+		fe := P.Facts(ex)
+		_, escapes := fe.SuccessExitReachableWithout(nil, func(in ssa.Instruction) bool {
+			c, ok := in.(ssa.CallInstruction)
+			return ok && calleeMatches(P, c, "x/amm/types.Pool.processExitPool")
+		})
+		R.Add(rule, P.Key(ex), "every successful exit runs processExitPool", P.Pos(ex.Pos()), !escapes, "Pool.ExitPool must not succeed without the balance and share bookkeeping")
+	} else {
+		R.Add(rule, "x/amm/types.Pool.ExitPool", "function", "-", false, "unresolved anchor")
 	}
 }
